@@ -7,6 +7,7 @@ package workflow
 import (
 	"github.com/AliceO2Group/Control/common/gera"
 	"github.com/AliceO2Group/Control/core/task"
+	"github.com/AliceO2Group/Control/core/task/sm"
 )
 
 // VerifTaskRole builds an ACTIVE task role around a deployed task (harness helper: the type is unexported).
@@ -41,6 +42,14 @@ func VerifSetTimeout(r Role, timeout string) {
 func VerifSetStatus(r Role, s task.Status) {
 	if tr, ok := r.(*taskRole); ok {
 		tr.status.status = s
+	}
+}
+
+// VerifSetState sets the cached state of a task role (e.g. ERROR for a task that announced an internal error and
+// is still alive).
+func VerifSetState(r Role, s sm.State) {
+	if tr, ok := r.(*taskRole); ok {
+		tr.state.state = s
 	}
 }
 
